@@ -23,7 +23,16 @@ AttributeError) and what every class and instance reads with SettingsVal.vtrace 
 checks and writes as the code performs them) and SettingsVal.vspec_trace (the documented
 meaning of each value; the documented resolution rule on the documented reading of the
 history, in which an invalid operation is no operation).  Operations given in the older integer
-coding ("v" + "pres") are translated to values first (legacy_val)."""
+coding ("v" + "pres") are translated to values first (legacy_val).
+
+Class HIERARCHIES ("hier" instead of "par"): the library's own base classes (BaseImage, GraphicsImage,
+TextImage, BlockImage), the style class, image mix-ins derived from the base classes that are not style
+classes, plain object mix-ins, style classes composed of a style base and mix-ins listed before or after
+it, diamonds -- created with type(name, bases, {}) through the library's metaclass; operations may target
+the library's base classes themselves.  model/SettingsMroTie.v [mcheck] computes every class's MRO with the
+C3 linearisation of model/SettingsMro.v, compares it with the real __mro__, and judges outcomes and
+readings against SettingsMro.m_vtrace (lookup through the MRO as the code performs it) and
+SettingsMro.m_vspec_trace (own value, else the FIRST CLASS OF THE MRO that has one, else the default)."""
 from __future__ import annotations
 
 import json
@@ -31,7 +40,8 @@ import json
 import core
 
 LEVEL = "proof"
-EXTRA_TARGETS = ["model/SettingsTie.vo", "model/SettingsRenderTie.vo", "model/SettingsValTie.vo"]
+EXTRA_TARGETS = ["model/SettingsTie.vo", "model/SettingsRenderTie.vo", "model/SettingsValTie.vo",
+                 "model/SettingsMroTie.vo"]
 KINDS = {
     "rm": lambda root: f"(SRm {2 if root == 'kitty' else 3})",
     "fs": lambda root: "SFs",
@@ -293,6 +303,186 @@ def gen_case(rng, size):
     return case
 
 
+# ---------------------------------------------------------------- class hierarchies (multiple inheritance)
+
+# the library's own classes, always the first five of a hierarchy
+LIB = [("base", []), ("gfx", [0]), ("text", [0]), ("block", [2]), ("root", [1])]
+BASE, GFX, TEXT, BLOCK, ROOT = range(5)
+LIB_NAMES = {"base": "BaseImage", "gfx": "GraphicsImage", "text": "TextImage", "block": "BlockImage"}
+
+
+def mirror_mros(hier):
+    """Python's own linearisation, on mirror classes built with plain type(): per class the MRO as
+    class numbers ([] = Python refuses to create the class)."""
+    cl, out = [], []
+    for i, e in enumerate(hier):
+        try:
+            if any(cl[b] is None for b in e["b"]):
+                raise TypeError("base not created")
+            c = type(f"K{i}", tuple(cl[b] for b in e["b"]), {})
+        except TypeError:
+            cl.append(None)
+            out.append([])
+            continue
+        cl.append(c)
+        ix = {id(x): j for j, x in enumerate(cl) if x is not None}
+        out.append([ix[id(x)] for x in c.__mro__ if id(x) in ix])
+    return out
+
+
+def hier_facts(hier):
+    """(mros, style classes = the root is in their MRO, classes instances can be made of)."""
+    mros = mirror_mros(hier)
+    style = [c for c, m in enumerate(mros) if ROOT in m]
+    # TextImage re-declares _render_image abstract: a class in whose MRO it precedes the style class
+    # cannot be instantiated
+    inst_ok = [c for c in style if TEXT not in mros[c] or mros[c].index(ROOT) < mros[c].index(TEXT)]
+    return mros, style, inst_ok
+
+
+def style_depth(hier, mros, c):
+    if c == ROOT:
+        return 0
+    return 1 + max([style_depth(hier, mros, b) for b in hier[c]["b"] if ROOT in mros[b]] or [0])
+
+
+def gen_hier(rng):
+    hier = [{"k": k, "b": list(b)} for k, b in LIB]
+    for _ in range(rng.randint(1, 6)):
+        for attempt in range(8):
+            mros, style, _ = hier_facts(hier)
+            mixins = [c for c, e in enumerate(hier) if e["k"] == "img" and mros[c] and ROOT not in mros[c]]
+            objs = [c for c, e in enumerate(hier) if e["k"] == "obj"]
+            r = rng.random()
+            if r < 0.12:
+                e = {"k": "obj", "b": [rng.choice(objs)] if objs and rng.random() < 0.3 else []}
+            elif r < 0.32:
+                # an image mix-in: derived from a library base class or another mix-in, not a style class
+                b = [rng.choice([BASE, GFX, GFX, TEXT] + mixins)]
+                if objs and rng.random() < 0.25:
+                    b.insert(rng.randrange(2), rng.choice(objs))
+                e = {"k": "img", "b": b}
+            else:
+                # a style class: one style base (two: a diamond) with mix-ins listed before or after
+                deep = [c for c in style if style_depth(hier, mros, c) < 4]
+                b = [rng.choice(deep)]
+                if len(deep) > 1 and rng.random() < 0.3:
+                    b.append(rng.choice([c for c in deep if c != b[0]]))
+                for _ in range(rng.choice([0, 0, 1, 1, 1, 2])):
+                    pool = mixins + objs
+                    if not pool or rng.random() < 0.1:
+                        pool = pool + [BASE, GFX, TEXT]  # a library base class listed beside the style base
+                    m = rng.choice(pool)
+                    if m not in b:
+                        b.insert(0 if rng.random() < 0.6 else rng.randrange(len(b) + 1), m)
+                e = {"k": "img", "b": b}
+            created = bool(mirror_mros(hier + [e])[-1])
+            # Python refuses an inconsistent order: kept now and then (nothing can derive from the
+            # class, target it or instantiate it; the model must refuse it too)
+            if created or rng.random() < 0.15:
+                hier.append(e)
+                break
+    return hier
+
+
+def gen_mi_case(rng, size):
+    root = rng.choice(["kitty", "iterm2", "iterm2"])
+    hier = gen_hier(rng)
+    mros, style, inst_ok = hier_facts(hier)
+    image = [c for c, e in enumerate(hier) if e["k"] != "obj" and mros[c]]
+    plain = [c for c in image if c not in style]
+    icls = [rng.choice(inst_ok) for _ in range(rng.randint(0, 3))]
+    ni = len(icls)
+    settings = SETTINGS[root]
+    focus = rng.choice(["rm", "rm", "fs", "fs"] + settings) if rng.random() < 0.7 else None
+    namv = VALUES["nam"]
+    ops = []
+    for _ in range(rng.randint(1, size)):
+        s = focus if focus and rng.random() < 0.8 else rng.choice(settings)
+        kind = rng.choices(["cs", "cu", "is", "iu"], [5, 3, 2 if ni else 0, 1.5 if ni else 0])[0]
+        if kind in ("is", "iu"):
+            t = rng.randrange(ni)
+        elif s == "fs":
+            # the library's own base classes are targets like any other class
+            t = rng.choice(image if rng.random() < 0.6 else [BASE, GFX, TEXT, BLOCK, ROOT])
+        elif s == "rm" and rng.random() < 0.12:
+            t = rng.choice(plain)  # a class without render methods: every name unknown, None allowed
+        else:
+            t = rng.choice(style)
+        o = {"s": s, "op": kind, "t": t, "pres": rng.randrange(6)}
+        if kind in ("cs", "is"):
+            o["v"] = rng.choice(namv if s == "nam" else VALUES[s])
+            if rng.random() < 0.2:
+                o["val"] = rng.choice(rng.choice([FALSY, FALSY, TRUTHY_ODD, STRINGS, INTS]))
+        ops.append(o)
+    case = {"root": root, "hier": hier, "icls": icls, "src": ["p"] * ni, "inst_ok": inst_ok, "ops": ops}
+    # a metaclass DERIVED from the one Python would pick, for classes nothing derives from (two
+    # unrelated derived metaclasses below one class would be a metaclass conflict)
+    used = {b for e in hier for b in e["b"]}
+    cands = [c for c, e in enumerate(hier) if e["k"] == "img" and c > ROOT and mros[c] and c not in used]
+    if cands and rng.random() < 0.3:
+        case["meta"] = sorted(rng.sample(cands, rng.randint(1, len(cands))))
+    return case
+
+
+def mi_corpus():
+    """Boundary hierarchies: a mix-in-first / mix-in-last / object-mix-in-first style class, a diamond,
+    a refused order; the class-wide render method set / unset at every class, forced support set on
+    every library base class in turn."""
+    out = []
+    lib = [{"k": k, "b": list(b)} for k, b in LIB]
+    #        5 Tagged(Gfx)   6 TK(Tagged, Root)   7 KT(Root, Tagged)   8 O   9 OK(O, Root)  10 A(Root)
+    #        11 B(Root)  12 D(A, B)   13 DT(Tagged, D)  14 refused (Root, A)
+    user = [[GFX], [5, ROOT], [ROOT, 5], None, [8, ROOT], [ROOT], [ROOT], [10, 11], [5, 12], [ROOT, 10]]
+    hier = lib + [{"k": "obj", "b": []} if b is None else {"k": "img", "b": b} for b in user]
+    _, style, inst_ok = hier_facts(hier)
+
+    def rm(op, t, v=None, pres=0):
+        o = {"s": "rm", "op": op, "t": t, "pres": pres}
+        if v is not None:
+            o["v"] = v
+        return o
+
+    def fs(t, v):
+        return {"s": "fs", "op": "cs", "t": t, "val": v_bool(v), "pres": 0}
+
+    for root in ("kitty", "iterm2"):
+        ops = [rm("cs", ROOT, 1)]
+        for c in style[1:]:
+            ops += [rm("cs", c, 0, c), rm("cu", c, pres=c)]  # set, unset: follows the rest of its MRO again
+        ops += [rm("cu", c, pres=c + 1) for c in style[1:]]  # unset without a value of its own
+        ops += [rm("cs", 10, 0), rm("cs", 11, 1, 1), rm("cu", 10), rm("cu", ROOT), rm("cs", 5, 0), rm("cu", 5),
+                rm("cu", GFX, pres=1), rm("cs", BASE, 1), rm("cs", ROOT, 1, 2), rm("cu", 11, pres=1)]
+        ops += [fs(BASE, True), fs(GFX, False), fs(ROOT, True), fs(5, True), fs(6, False), fs(BASE, False),
+                fs(TEXT, True), fs(BLOCK, False), fs(GFX, True), fs(10, False), fs(12, True), fs(GFX, False),
+                fs(TEXT, False), {"s": "fs", "op": "is", "t": 0, "val": v_bool(True), "pres": 0},
+                {"s": "fs", "op": "cs", "t": BASE, "val": v_int(1), "pres": 0}]
+        if root == "iterm2":
+            ops += [{"s": "jq", "op": "cs", "t": ROOT, "v": 50, "pres": 0}, {"s": "jq", "op": "cs", "t": 6, "v": 95, "pres": 0},
+                    {"s": "jq", "op": "cu", "t": 6, "pres": 0}, {"s": "rff", "op": "cs", "t": 12, "v": 0, "pres": 0},
+                    {"s": "rff", "op": "cs", "t": 11, "v": 0, "pres": 0}, {"s": "rff", "op": "cu", "t": 12, "pres": 0},
+                    {"s": "nam", "op": "cs", "t": 9, "v": 4096, "pres": 0}, {"s": "nam", "op": "cu", "t": 13, "pres": 0}]
+        out.append({"root": root, "hier": hier, "icls": [6, 9, 12, 7], "src": ["p"] * 4, "inst_ok": inst_ok,
+                    "ops": ops, "meta": [7, 12] if root == "iterm2" else []})
+    return out
+
+
+def cls_name(case, c):
+    e = case["hier"][c]
+    if e["k"] in LIB_NAMES:
+        return LIB_NAMES[e["k"]]
+    if e["k"] == "root":
+        return {"kitty": "KittyImage", "iterm2": "ITerm2Image"}[case["root"]]
+    return ("O%d" if e["k"] == "obj" else "C%d") % c
+
+
+def hier_term(c, r):
+    return (f"mc_bases := {core.coq_list(c['hier'], lambda e: core.coq_list(e['b']))}; "
+            f"mc_img := {core.coq_list(c['hier'], lambda e: 'false' if e['k'] == 'obj' else 'true')}; "
+            f"mc_root := {ROOT}; mc_icls := {core.coq_list(c['icls'])}; "
+            f"mc_pymro := {core.coq_list(r['mros'], core.coq_list)}")
+
+
 def render_corpus():
     """Boundary cases: ANIM effective at each level (instance, class, ancestor class) and as the
     per-call override, on animated file sources, with the global limit below / at / above the
@@ -400,6 +590,7 @@ def evaluate(cases, tag="c20", only=None):
         impl[i] = r
     terms, owner = [], []
     rterms, rowner = [], []
+    mterms, mowner = [], []
     for i, (c, r) in enumerate(zip(cases, impl)):
         if any(o["s"] == "rd" for o in c["ops"]) and (only is None or "render-method-used" in only):
             rops = [o for o in c["ops"] if o["s"] in ("rm", "nam", "rd")]
@@ -416,6 +607,12 @@ def evaluate(cases, tag="c20", only=None):
             if not ops or (only is not None and s not in only):
                 continue
             obs = r["obs"][s]
+            if "hier" in c:
+                mterms.append(
+                    f"{{| mc_set := {KINDS[s](c['root'])}; {hier_term(c, r)}; "
+                    f"mc_ops := {core.coq_list(ops, vop_term)}; mc_obs := {zll(obs)} |}}")
+                mowner.append((i, s))
+                continue
             terms.append(
                 f"{{| v_set := {KINDS[s](c['root'])}; v_par := {core.coq_list(c['par'])}; "
                 f"v_icls := {core.coq_list(c['icls'])}; v_ops := {core.coq_list(ops, vop_term)}; "
@@ -426,19 +623,27 @@ def evaluate(cases, tag="c20", only=None):
               "Open Scope nat_scope.\n")
     status = [[] for _ in cases]
     errors = []
-    if terms:
-        bad, errs = core.coq_shards(tag, header, terms, "vcase", "vbad cases")
+    rheader = header.replace("model.SettingsValTie.", "model.SettingsValTie model.SettingsRender model.SettingsRenderTie.")
+    mheader = header.replace("model.SettingsValTie.", "model.SettingsValTie model.SettingsMro model.SettingsMroTie.")
+    jobs = [(tag, header, terms, "vcase", "vbad cases"), (tag + "r", rheader, rterms, "rcase", "rbad cases"),
+            (tag + "m", mheader, mterms, "mcase", "mbad cases")]
+    from concurrent.futures import ThreadPoolExecutor
+    with ThreadPoolExecutor(max_workers=3) as ex:  # the three judgements side by side
+        judged = list(ex.map(lambda j: core.coq_shards(*j) if j[2] else ([], []), jobs))
+    for (bad, errs), own in zip(judged, (owner, None, mowner)):
         errors += errs
         for idx, code in bad:
-            i, s = owner[idx]
-            status[i].append((s, code))
-    if rterms:
-        rheader = header.replace("model.SettingsValTie.", "model.SettingsValTie model.SettingsRender model.SettingsRenderTie.")
-        bad, errs = core.coq_shards(tag + "r", rheader, rterms, "rcase", "rbad cases")
-        errors += errs
-        for idx, code in bad:
-            status[rowner[idx]].append(("render-method-used", code))
+            if own is None:
+                status[rowner[idx]].append(("render-method-used", code))
+            else:
+                i, s = own[idx]
+                status[i].append((s, code))
     for i, r in enumerate(impl):
+        if not r.get("restored", 1) or not r.get("clean_start", 1):
+            # the library's process-global classes were not put back: later cases of that driver
+            # process cannot be trusted
+            errors.append(f"case {i}: library classes not restored (restored={r.get('restored')}, "
+                          f"clean_start={r.get('clean_start')})")
         if r["interference"]:
             status[i].append(("interference", 2))
         if r["framing_bad"]:
@@ -485,7 +690,40 @@ def shrink(case, only=None):
             break
         else:
             n = min(n * 2, L)
+    if "hier" in cur:
+        small = prune_hier(cur)
+        if small is not cur:
+            status, errors, _, cands = evaluate([small], tag="c20s", only=only)
+            if not errors and fails_spec(status[0]):
+                cur = cands[0]
     return cur
+
+
+def prune_hier(case):
+    """The case without the classes and instances its operations do not involve (classes an
+    involved class derives from are kept; the library's classes always are)."""
+    hier = case["hier"]
+    insts = sorted({o["t"] for o in case["ops"] if o["op"] in ("is", "iu")})
+    keep = set(range(ROOT + 1)) | {o["t"] for o in case["ops"] if o["op"] in ("cs", "cu")}
+    keep |= {case["icls"][i] for i in insts}
+    todo = list(keep)
+    while todo:
+        for b in hier[todo.pop()]["b"]:
+            if b not in keep:
+                keep.add(b)
+                todo.append(b)
+    if len(keep) == len(hier) and len(insts) == len(case["icls"]):
+        return case
+    cmap = {c: j for j, c in enumerate(sorted(keep))}
+    imap = {i: j for j, i in enumerate(insts)}
+    out = dict(case)
+    out["hier"] = [{"k": hier[c]["k"], "b": [cmap[b] for b in hier[c]["b"]]} for c in sorted(keep)]
+    out["icls"] = [cmap[case["icls"][i]] for i in insts]
+    out["src"] = [case["src"][i] for i in insts]
+    out["inst_ok"] = [cmap[c] for c in case.get("inst_ok", []) if c in keep]
+    out["meta"] = [cmap[c] for c in case.get("meta", []) if c in keep]
+    out["ops"] = [dict(o, t=(cmap if o["op"] in ("cs", "cu") else imap)[o["t"]]) for o in case["ops"]]
+    return out
 
 
 def describe(case):
@@ -497,6 +735,17 @@ def describe(case):
         if o["op"] in ("cs", "is"):
             return f"{who}.{o['s']}={val_repr(o['val'] if 'val' in o else legacy_val(o['s'], o['v'], o.get('pres', 0)))}"
         return f"{who}.{o['s']}.unset"
+    if "hier" in case:
+        mros = mirror_mros(case["hier"])
+        decl = [f"{cls_name(case, c)}({', '.join(cls_name(case, b) for b in e['b']) or 'object'})"
+                + ("" if mros[c] else "<refused>")
+                for c, e in enumerate(case["hier"]) if c > ROOT]
+        names = {f"C{c}.": cls_name(case, c) + "." for c in range(len(case["hier"]))}
+        ops = [names.get(x.split(".")[0] + ".", x.split(".")[0] + ".") + x.split(".", 1)[1]
+               for x in map(one, case["ops"])]
+        return (f"root={case['root']} classes=[{'; '.join(decl)}] below BaseImage <- GraphicsImage <- "
+                f"{cls_name(case, ROOT)}, BaseImage <- TextImage <- BlockImage; "
+                f"inst_classes={[cls_name(case, c) for c in case['icls']]} ops=[{', '.join(ops)}]")
     return (f"root={case['root']} parents={case['par']} inst_classes={case['icls']} "
             f"inst_sources={case.get('src')} ops=[{', '.join(map(one, case['ops']))}]")
 
@@ -507,8 +756,12 @@ def run(ctx):
         cases = [ctx.replay["replay"]["case"]]
     else:
         n = 300 if ctx.quick else 4000
-        corpus = list(CORPUS) + render_corpus() + value_corpus()
+        nmi = 110 if ctx.quick else 1500
+        corpus = list(CORPUS) + mi_corpus() + render_corpus() + value_corpus()
         cases = corpus + [gen_case(rng, 12 if i % 3 else 30) for i in range(n)]
+        # hierarchies with multiple inheritance rooted at the library's base classes (own generator stream
+        # position: after the forests, so that those are the same cases as before)
+        cases += [gen_mi_case(rng, 10 if i % 3 else 24) for i in range(nmi)]
     src_info()
     lower_bad = list(_PROBE.get("lower_bad", []))
     status, errors, impl, cases = evaluate(cases)
@@ -518,11 +771,43 @@ def run(ctx):
     mismatches, failures = [], []
     ncorpus = 0 if ctx.replay else len(corpus)
     hist = {"root": {}, "classes": {}, "ops_len": {}, "op_kinds": {}, "settings": {}, "rejected_ops": 0, "accepted_ops": 0,
-            "inst_sources": {}, "renders": {}, "render_requests": {}, "set_values": {}, "outcomes": {}}
+            "inst_sources": {}, "renders": {}, "render_requests": {}, "set_values": {}, "outcomes": {},
+            "hierarchy_cases": 0, "hierarchy_shapes": {}, "hierarchy_targets": {}}
     distinct = set()
+
+    def bump(key, name):
+        hist[key][name] = hist[key].get(name, 0) + 1
+
     for c, r in zip(cases, impl):
         hist["root"][c["root"]] = hist["root"].get(c["root"], 0) + 1
-        hist["classes"][len(c["par"])] = hist["classes"].get(len(c["par"]), 0) + 1
+        nclasses = len(c["par"]) if "par" in c else len(c["hier"]) - ROOT
+        hist["classes"][nclasses] = hist["classes"].get(nclasses, 0) + 1
+        if "hier" in c:
+            hist["hierarchy_cases"] += 1
+            mros, style, _ = hier_facts(c["hier"])
+            for x, e in enumerate(c["hier"]):
+                if x <= ROOT:
+                    continue
+                if not mros[x]:
+                    bump("hierarchy_shapes", "refused (inconsistent order)")
+                elif e["k"] == "obj":
+                    bump("hierarchy_shapes", "object mix-in")
+                elif x not in style:
+                    bump("hierarchy_shapes", "image mix-in (no render methods)")
+                else:
+                    sb = [b for b in e["b"] if b in style]
+                    first_is_style = e["b"][0] in style
+                    bump("hierarchy_shapes", "style class: " + ("single base" if len(e["b"]) == 1 else (
+                        ("diamond, " if len(sb) > 1 else "")
+                        + ("mix-in listed first" if not first_is_style else "style base listed first")
+                        if len(e["b"]) > len(sb) else "diamond")))
+                    bump("hierarchy_shapes", f"style depth {style_depth(c['hier'], mros, x)}")
+            for o in c["ops"]:
+                if o["op"] in ("cs", "cu"):
+                    t = o["t"]
+                    bump("hierarchy_targets", o["s"] + " on " + (
+                        cls_name(c, t) if t < ROOT else "the style class" if t == ROOT else
+                        "a style subclass" if t in style else "an image mix-in"))
         b = min(len(c["ops"]) // 5 * 5, 30)
         hist["ops_len"][b] = hist["ops_len"].get(b, 0) + 1
         for o in c["ops"]:
@@ -555,7 +840,7 @@ def run(ctx):
                 hist["outcomes"][key] = hist["outcomes"].get(key, 0) + 1
         # non-trivial: >= 2 classes, >= 3 ops and some class-level set followed by an unset
         kinds = [o["op"] for o in c["ops"]]
-        if len(c["par"]) >= 2 and len(c["ops"]) >= 3 and "cs" in kinds and ("cu" in kinds or "iu" in kinds):
+        if nclasses >= 2 and len(c["ops"]) >= 3 and "cs" in kinds and ("cu" in kinds or "iu" in kinds):
             distinct.add(core.sig(c))
     for i, st in enumerate(status):
         if not st:
@@ -569,7 +854,8 @@ def run(ctx):
                 small, st2, impl2 = cases[i], [st], [impl[i]]
             what = f"settings history violates the documented resolution rule ({[s for s, c in st2[0] if c >= 2]}): {describe(small)}"
             failures.append({
-                "signature": core.sig({"root": small["root"], "par": small["par"], "icls": small["icls"],
+                "signature": core.sig({"root": small["root"], "icls": small["icls"],
+                                       **({"hier": small["hier"]} if "hier" in small else {"par": small["par"]}),
                                        "src": small.get("src"),
                                        "ops": [(o["s"], o["op"], o["t"], o.get("val"), o.get("m"), o.get("f"))
                                                for o in small["ops"]]}),
@@ -579,8 +865,9 @@ def run(ctx):
         else:
             mismatches.append({"case": cases[i], "status": st, "observed": impl[i]["obs"]})
     return {
-        "corr_name": "SettingsVal.vtrace (model) == real set/unset history, with values of the whole universe, on "
-                     "KittyImage/ITerm2Image subclass forests",
+        "corr_name": "SettingsVal.vtrace / SettingsMro.m_vtrace (model) == real set/unset history, with values of the "
+                     "whole universe, on KittyImage/ITerm2Image subclass forests and on multiple-inheritance "
+                     "hierarchies rooted at the library's base classes",
         "evaluations": len(cases),
         "distinct_nontrivial": len(distinct),
         "rule": "corpus + random class forests (1-6 classes: chains, stars, random trees; 0-3 instances) with 1-30 "
@@ -598,15 +885,32 @@ def run(ctx):
                 "and whether the size warning was issued are compared with the model and with the documented rule; "
                 "after every op every class's and instance's effective value is read, every "
                 "instance is rendered (framing LINES vs WHOLE), at the end fresh instances, per-call overrides and "
-                "forced-support instantiation are observed.  Non-trivial: >= 2 classes, >= 3 ops, a class-level "
-                "set and some unset; distinct by full case hash.",
-        "samples": [describe(c) for c in cases[:2] + cases[len(CORPUS):len(CORPUS) + 1] + cases[ncorpus:ncorpus + 3]],
+                "forced-support instantiation are observed.  HIERARCHIES with multiple inheritance (corpus + random): "
+                "below the library's own BaseImage <- GraphicsImage <- style class and BaseImage <- TextImage <- "
+                "BlockImage, 1-6 classes created with type(name, bases, {}) through the library's metaclass: plain "
+                "object mix-ins, image mix-ins derived from BaseImage / GraphicsImage / TextImage or from each other "
+                "(no render methods), style classes with one or two style bases (diamonds) and 0-2 mix-ins listed "
+                "before or after them, style depth <= 4, now and then an order Python refuses (the class is not "
+                "created, the model's C3 must refuse it too), a derived metaclass on leaf classes; operations target "
+                "ANY class the setting exists on, the library's base classes included (forced support on BaseImage / "
+                "GraphicsImage / TextImage / BlockImage; the render method's set / unset also on classes without "
+                "render methods), the process-global classes being restored and the restoration verified after "
+                "every case; the model's C3 linearisation is compared with every class's real __mro__; readings "
+                "of every class (ABSENT where the setting does not exist) and instance after every op.  "
+                "Non-trivial: >= 2 classes, >= 3 ops, a class-level set and some unset; distinct by full case hash.",
+        "samples": [describe(c) for c in cases[:2] + cases[len(CORPUS):len(CORPUS) + 1] + cases[ncorpus:ncorpus + 3]
+                    + ([] if ctx.replay else cases[-2:])],
         "histogram": hist,
         "mismatches": mismatches,
         "failures": failures,
         "errors": errors,
         "assumptions": [
-            "Python attribute resolution on single-inheritance class chains is modelled by cls_lookup (instance dict, then class chain)",
+            "Python attribute resolution is modelled by cls_lookup on single-inheritance chains and by first_some over the "
+            "C3 linearisation (SettingsMro.c3_all, compared with the real __mro__ of every generated class at run time) on "
+            "hierarchies with multiple inheritance (instance dict, then the classes of the MRO in order)",
+            "a setting exists on a class iff the class has the metaclass property / a non-empty _render_methods: forced "
+            "support on every ImageMeta class, the render method below the style class, the iterm2 settings below "
+            "ITerm2Image (the driver decides this from the library's structure, the model from the MRO)",
             "values are identified up to the case of a render-method name (the code applies .lower()) and up to "
             "Python equality of bool and int (True == 1): a bool is accepted where an int is documented",
             "str.lower() maps no code point outside A-Z onto letters of the render-method names (checked over all "
